@@ -129,6 +129,9 @@ type c17OnceObs struct {
 	panicked  bool
 	panicMsg  string
 	overlap   bool // two calls on one key overlapped in real time
+	// a second constructor, of values of an interface type, whose result is the nil interface for
+	// every key, and a third one that returns a nil pointer: how often they ran per key
+	ctorNilIface, ctorNilPtr []int32
 }
 
 func spinC17(n int) {
@@ -158,6 +161,16 @@ func runC17Once(c c17OnceCase, rec *c17Recorder) (o c17OnceObs) {
 		panicOnce.Do(func() { o.panicked = true; o.panicMsg = fmt.Sprint(v) })
 	}
 
+	ctorNI := make([]atomic.Int32, o.nkeys)
+	ctorNP := make([]atomic.Int32, o.nkeys)
+	ocNilIface := syncutil.NewOnceConstructor(func(k int) error {
+		ctorNI[k].Add(1)
+		return nil
+	})
+	ocNilPtr := syncutil.NewOnceConstructor(func(k int) *c17Val {
+		ctorNP[k].Add(1)
+		return nil
+	})
 	oc := syncutil.NewOnceConstructor(func(k int) *c17Val {
 		rec.log("S%d", k)
 		n := ctor[k].Add(1)
@@ -229,6 +242,13 @@ func runC17Once(c c17OnceCase, rec *c17Recorder) (o c17OnceObs) {
 				atomic.StoreInt64(&starts[cl.tid], time.Now().UnixNano())
 				v := oc.Get(cl.key)
 				end := time.Now().UnixNano()
+				// "nothing" is a value like any other: constructed once
+				if err := ocNilIface.Get(cl.key); err != nil {
+					panic("the nil-interface constructor's value came back as non-nil")
+				}
+				if p := ocNilPtr.Get(cl.key); p != nil {
+					panic("the nil-pointer constructor's value came back as non-nil")
+				}
 				if v == nil {
 					rec.log("R%d:%d:-", cl.tid, cl.key)
 				} else {
@@ -269,6 +289,8 @@ func runC17Once(c c17OnceCase, rec *c17Recorder) (o c17OnceObs) {
 	defer mu.Unlock()
 	for k := range ctor {
 		o.ctor[k] = ctor[k].Load()
+		o.ctorNilIface = append(o.ctorNilIface, ctorNI[k].Load())
+		o.ctorNilPtr = append(o.ctorNilPtr, ctorNP[k].Load())
 	}
 	o.results = append([]*c17Val{}, o.results...)
 	o.returned = append([]bool{}, o.returned...)
@@ -365,6 +387,9 @@ func evalC17OnceRun(c c17OnceCase) Result {
 		}
 		if o.ctor[k] != want {
 			direct = fail("ctor-count", "constructor ran %d times for key %d, want %d", o.ctor[k], k, want)
+		} else if doneN == o.total && (o.ctorNilIface[k] != want || o.ctorNilPtr[k] != want) {
+			direct = fail("ctor-count-nil", "key %d: the constructor whose value is the nil interface ran %d times, the one whose value is a nil pointer %d times, want %d",
+				k, o.ctorNilIface[k], o.ctorNilPtr[k], want)
 		}
 	}
 	for t := 0; t < o.total && direct == "ok"; t++ {
